@@ -487,3 +487,8 @@ def vary(run, rng):
         elif o['op'] == 'crashsave':
             continue
         ops.insert(rng.randint(k + 1, len(ops)), o)
+
+
+def shape(run):
+    kinds = sorted(set(d[0] + (str(d[1]) if d[0] == 'err' else '') for d in run['faults'].get('io', [])))
+    return digest([run['swarm']['knobs'], kinds, sorted(set(o['op'] for o in run['ops']))])
